@@ -110,7 +110,7 @@ def declare(spec):
 
     F(spec, "Schedule",
       schedule_type="str", shift_end_dates="list:NumList", numbers_of_servers="list:IntList",
-      preemption="orfalse:str", cyclelength="num", offset="num", c="int", next_shift_change_date="time",
+      preemption="orfalse:str", cyclelength="num", offset="time", c="int", next_shift_change_date="time",
       next_c="int", schedule_generator="gen:Sched")
     F(spec, "Slotted",
       slots="list:NumList", slot_sizes="list:IntList", next_slot_sizes="list:IntList", capacitated="bool",
